@@ -141,6 +141,15 @@ class Ctx:
             raise Inconclusive("go.sum copy failed: %s" % e)
         out = out or self.path("bin_" + name + ("_race" if race else ""))
         cmd = ["go", "build", "-tags", tags, "-o", out]
+        if REPO != "/repo":
+            # development aid: build against another checkout (a scratch worktree) through an alternative go.mod
+            mf = self.path("alt.go.mod")
+            with open(os.path.join(HARNESS, "go.mod")) as f:
+                txt = f.read().replace("=> /repo", "=> " + REPO)
+            with open(mf, "w") as f:
+                f.write(txt)
+            shutil.copy(src_sum, self.path("alt.go.sum"))
+            cmd += ["-modfile", mf]
         env = goenv()
         if race:
             cmd.insert(2, "-race")
@@ -246,9 +255,10 @@ class Ctx:
     def violation(self, desc, payload):
         os.makedirs(os.path.join(VERIF, "replays"), exist_ok=True)
         n = len(self.violations)
-        path = os.path.join(VERIF, "replays", "%s-%s-%d-%d.json" % (self.pid, self.tier, self.seed, n))
-        with open(path, "w") as f:
-            json.dump({"property": self.pid, "desc": desc, "case": payload}, f, indent=1, default=str)
+        path = os.path.join(VERIF, "replays", "%s-%s-%d-%d.json" % (self.pid, self.tier, self.seed, min(n, 49)))
+        if n < 50:   # at most 50 replay files per run; further violations are counted only
+            with open(path, "w") as f:
+                json.dump({"property": self.pid, "desc": desc, "case": payload}, f, indent=1, default=str)
         self.violations.append((desc, path))
         if n < 20:
             print("VIOLATION property=%s replay=%s" % (self.pid, path), flush=True)
